@@ -9,7 +9,7 @@ from __future__ import annotations
 from dataclasses import dataclass, field
 from typing import Callable, Dict, List, Optional, Tuple
 
-from . import bd, bw, cc, er, ev, ex, fs, hx, hy, hz, lk, on, oo, rd, rt, sh, st, vw, wk
+from . import bd, bw, cc, er, ev, ex, fs, fw, ha, hx, hy, hz, lk, on, oo, rd, rt, sh, st, vw, wk
 
 
 @dataclass
@@ -140,6 +140,8 @@ RULE_GROUPS: Dict[str, Callable] = {
     'bw.string_annotations': bw.rule_string_annotations,
     'bw.build_node': bw.rule_build_node,
     'bw.recurrent_validations': bw.rule_recurrent_validations,
+    'ha.active_mark_released': ha.rule_active_mark_released,
+    'fw.write_once_map': fw.rule_write_once_map,
 }
 
 RULES: Dict[str, Tuple[str, str]] = {
@@ -227,6 +229,11 @@ RULES: Dict[str, Tuple[str, str]] = {
     'VL-8': ('bw.defects_rejected', 'a value named by a mark or by the caller is class-checked before its id is computed or it is registered'),
     'VL-9': ('bw.defects_rejected', 'every path of build() (traversal, single node, input = output) rejects a defective node with the specific error'),
     'VL-10': ('bw.defects_rejected', 'declaration sets free of defects build, one per mark kind'),
+    'RC-11': ('ha.active_mark_released', 'the running mark of a recurrent subgraph is released on every regular completion of its driver'),
+    'BN-7': ('bw.build_node', 'deriving a node with build_node does not change the annotations of the class it derives from'),
+    'BN-6': ('bw.build_node', 'two classes generated by build_node from one unnamed base get different node ids'),
+    'FS-9': ('fw.write_once_map', 'save / load interpreted over an abstract file system obey the laws of a write-once map keyed exactly by the node id'),
+    'OO-11': ('oo.candidate_started_lazily', 'the registry of started one-of candidates is only added to during a run'),
     'OO-10': ('oo.candidate_started_lazily', 'a one-of candidate is recorded as started only in the iteration of the candidate loop that starts it'),
     'RD-9': ('st.ready_covers_delivered_inputs', 'in a plain scope readiness waits for every predecessor that delivers a parameter, also outside the sub-dag being run'),
     'SH-9': ('sh.memoisation', 'a memoised method of the run manager reads no run state (node storage)'),
@@ -685,6 +692,17 @@ _add('C18', 'FS-8')
 _add('C09', 'BD-15', 'RD-10')
 _add('C03', 'RD-10')
 _add('C02', 'ER-9')
+_add('C03', 'SW-4')
+_add('C10', 'OO-11')
+_add('C18', 'FS-9')
+_add('C17', 'SH-5')
+_add('C15', 'BN-6')
+_add('C16', 'BN-7')
+_add('C15', 'BN-7')
+_add('C07', 'BN-7')
+_add('C11', 'RC-11')
+_add('C02', 'RC-11')
+_add('C02', 'PB-1')
 _add('C05', 'ER-9')
 _add('C14', 'ER-9')
 _add('C02', 'RT-9')
